@@ -624,9 +624,9 @@ func pushingWhile(w While, srcsel int, fl flags.Pass, cr compResult) bytecode.Ty
 	bodyAddr := len(*cr.CS)
 	body := w.Body.byteCode(0, fl.Data().Pass(flags.WithDiscard(false)), cr)
 
-	if body.Src0() == bytecode.AddrInv {
-		panic("while body result is invalid in non-discarding while")
-	}
+	// A body without a result (it returns on every path) leaves nothing to push or pop: only the
+	// zero-iteration path reaches the end of the loop, with the initial nil as the loop's value.
+	noResult := body.Src0() == bytecode.AddrInv
 
 	jumpBack := bodyAddr
 	if body.Src0() == bytecode.AddrStck {
@@ -637,10 +637,11 @@ func pushingWhile(w While, srcsel int, fl flags.Pass, cr compResult) bytecode.Ty
 	(*cr.CS)[jumpBackAddr] |= bytecode.EncodeSrc(1, bytecode.AddrImm, jumpBack-jumpBackAddr)
 
 	dest := body
-	if body.Src0() != bytecode.AddrStck && !returning {
+	if body.Src0() != bytecode.AddrStck && !noResult && !returning {
 		instr = bytecode.New(bytecode.PUSH) | body
 		*cr.CS = append(*cr.CS, instr)
-
+	}
+	if !returning {
 		dest = bytecode.EncodeSrc(srcsel, bytecode.AddrStck, 0)
 	}
 
